@@ -1,0 +1,28 @@
+// Verification hooks: thin exported wrappers over the shared-memory
+// allocator's unexported entry points. Compiled only with `-tags verif`;
+// absent from every normal build.
+
+//go:build verif
+
+package vgirpc
+
+// VerifShmAllocate first-fits size bytes in the segment's data region.
+func VerifShmAllocate(s *ShmSegment, size int) (uint64, bool) {
+	s.mu.Lock()
+	defer s.mu.Unlock()
+	return s.allocateLocked(size)
+}
+
+// VerifShmFree removes the allocation starting at offset.
+func VerifShmFree(s *ShmSegment, offset uint64) error {
+	s.mu.Lock()
+	defer s.mu.Unlock()
+	return s.freeAtLocked(offset)
+}
+
+// VerifShmAllocs returns the allocation table as (offset, length) pairs.
+func VerifShmAllocs(s *ShmSegment) [][2]uint64 {
+	s.mu.Lock()
+	defer s.mu.Unlock()
+	return s.readAllocs()
+}
